@@ -622,7 +622,7 @@ func TestCheck(t *testing.T) {
 	r := mon.Start(t, "C05")
 	defer r.Finish()
 	r.SpinWatch(memwire.BytesMoved)
-	r.Note("rule", "(1) frame-accurate tampering with the reference implementation as sender and a real endpoint (server and client role) as victim: single-bit flips of one frame of 7 size classes (21,22,45,100,733,1447,1448 bytes; quick: all 144 bits of length field and tag plus PRNG body bits, thorough: every bit), all 24 permutations of 4 frames (identity = control), every single deletion/duplication, replays of earlier frames, forged frames (random/zero/copy) inserted at every position, truncation+EOF at byte 0,1,2,3,17,18,19,last of every frame, single byte deleted/inserted, length field rewritten to out-of-range classes using the known mask, garbage appended; every tampered stream extends >= 2*1448 bytes beyond the damage or ends with EOF; chunkings {all,1,1447,PRNG}. (2) blind flip/insert/delete/swap at PRNG offsets on real<->real connections (all IAT modes). (2b) crowds of 8..24 real connections to one bridge alive in one process at once, 1..8 of them damaged by a blind bit flip in either direction while the others carry 30..200 kB each way concurrently, in two waves (next to the damaged ones, and after them), under the race detector: per-connection stream oracle. (3) decoder-level: every bit (quick: sizes step 97 + edges, thorough: every size 0..1427... see exhaustive_part) of a frame through the exported framing API. Non-trivial = a case whose stream really differs from the original; distinct = (class, position, victim, chunking).")
+	r.Note("rule", "(1) frame-accurate tampering with the reference implementation as sender and a real endpoint (server and client role) as victim: single-bit flips of one frame of 7 size classes (21,22,45,100,733,1447,1448 bytes; quick: all 144 bits of length field and tag plus PRNG body bits, thorough: every bit), all 24 permutations of 4 frames (identity = control), every single deletion/duplication, replays of earlier frames, forged frames (random/zero/copy) inserted at every position, truncation+EOF at byte 0,1,2,3,17,18,19,last of every frame, single byte deleted/inserted, length field rewritten to out-of-range classes using the known mask, garbage appended; every tampered stream extends >= 2*1448 bytes beyond the damage or ends with EOF; chunkings {all,1,1447,PRNG}. (2) blind flip/insert/delete/swap at PRNG offsets on real<->real connections (all IAT modes). (2a) reflection: the victim's own first burst (frames 1.. of its sending direction) is sent back to it in place of its peer's frames 1.. (for the client: in place of the seed frame); (2b) crowds of 8..24 real connections to one bridge alive in one process at once, 1..8 of them damaged by a blind bit flip in either direction while the others carry 30..200 kB each way concurrently, in two waves (next to the damaged ones, and after them), under the race detector: per-connection stream oracle. (3) decoder-level: every bit (quick: sizes step 97 + edges, thorough: every size 0..1427... see exhaustive_part) of a frame through the exported framing API. Non-trivial = a case whose stream really differs from the original; distinct = (class, position, victim, chunking).")
 	dir := o4.StateDir("c05")
 
 	// (1a) bit flips
@@ -713,6 +713,12 @@ func TestCheck(t *testing.T) {
 			}
 		})
 	}
+	// (2a) reflection: an endpoint's own frames sent back to it
+	r.Bubble("reflect", func(c *mon.Case) {
+		for k := 0; k < r.Pick(8, 60); k++ {
+			reflect(c, r, dir, []string{"client", "server"}[k%2], r.Sub("reflect", k))
+		}
+	})
 	// (2b) crowds: many connections in one process at once, some of them damaged
 	ncr := r.Pick(8, 64)
 	for i := 0; i < ncr; i++ {
